@@ -45,6 +45,7 @@ type LedgerLine struct {
 	Rewarded uint64 `json:"rewarded"` // sum of reward events of this block
 	PrevPool uint64 `json:"prevPool"` // sum of pools before the block
 	Included int    `json:"included"` // transactions included
+	Fees     uint64 `json:"fees"`     // sum of the fees of the included transactions
 	Refused  int    `json:"refused"`  // operations the mempool refused
 	Err      string `json:"err"`
 	Note     string `json:"note"`
@@ -279,6 +280,12 @@ func (s *ledgerSim) txFor(o Op) (lib.TransactionI, lib.ErrorI) {
 	case "unstake":
 		k := s.key(o.Who)
 		return fsm.NewUnstakeTx(k, k.PublicKey().Address(), 1, 1, s.fee, h, "")
+	case "subsidy": // account -> the pool of a committee
+		from := s.n.accKeys[o.Who%len(s.n.accKeys)]
+		return fsm.NewSubsidyTx(from, o.Amt, uint64(1+o.To%3), nil, 1, 1, 10000, h, "")
+	case "dao": // DAO pool -> account (a governance proposal; accepted by the default proposal configuration)
+		from := s.n.accKeys[o.Who%len(s.n.accKeys)]
+		return fsm.NewDAOTransferTx(from, o.Amt, 1, 5000, 1, 1, 10000, h, false, "")
 	}
 	return nil, lib.ErrInvalidArgument()
 }
@@ -317,6 +324,12 @@ func (s *ledgerSim) block(b BlockSpec, note string) (ok bool) {
 	blk := new(lib.Block)
 	_ = lib.Unmarshal(p.block, blk)
 	line.Included = len(blk.Transactions)
+	for _, raw := range blk.Transactions {
+		t := new(lib.Transaction)
+		if lib.Unmarshal(raw, t) == nil {
+			line.Fees += t.Fee
+		}
+	}
 	// the state the proposed header commits to (the mempool's working copy after CheckMempool, failing transactions
 	// dropped): the ledger equations must already hold there
 	if ps, e := n.scanProposal(); e == nil {
@@ -491,6 +504,11 @@ func randomBlock(rng *rand.Rand, nv, na int) BlockSpec {
 			o.Op = "unstake"
 		case 8:
 			o.Op, o.Who, o.To, o.Amt = "send", rng.Intn(na), rng.Intn(na), 1<<40 // fails: insufficient funds
+			if k := rng.Intn(3); k == 1 {
+				o.Op, o.Amt = "subsidy", uint64(1+rng.Intn(3000))
+			} else if k == 2 {
+				o.Op, o.Amt = "dao", uint64(1+rng.Intn(400)) // fails when the DAO pool holds less
+			}
 		}
 		b.Ops = append(b.Ops, o)
 	}
